@@ -334,6 +334,15 @@ def no_new_state(ck, rels, rule='STATE-no-memory'):
 
 # ----------------------------------------------------------------------------------------------------------------------
 # ARG-binding: an argument that carries the name of one of the callee's parameters is bound to that parameter
+ARG_DROP_TRIAGE = {
+    ('vermouth/gmx/topology.py', 'write_gmx_topology', 'write_molecule_itp', 'moltype'):
+        'the caller\'s `moltype` is molecule.meta[\'moltype\'], which is exactly what the callee\'s default (None) falls back to',
+    ('vermouth/processors/make_bonds.py', 'make_bonds', '_bonds_from_distance', 'non_edges'):
+        'the per-residue fall-back pass is for residues without a usable reference block: there are no block non-bonds for it, the accumulated set belongs to the system-wide pass',
+}
+ARG_DROP_CALLEE_EXEMPT = {
+    'format_atom_string': 'its keyword parameters are place-holders that the node\'s own attributes override (`defaults.update(node)`); callers pass the node',
+}
 ARG_TRIAGE = {
     # (caller file, caller function, callee, argument name): reason -- sites where a same-named value is deliberately handed to another parameter
 }
@@ -360,7 +369,7 @@ def arg_binding(ck, rels, rule='ARG-binding'):
     the callee must sit at that parameter's position.  Catches transposed arguments; says nothing about other calls."""
     index = ck.index
     table = _callee_table(index)
-    resolved = samename = 0
+    resolved = samename = dropped = 0
     for rel in rels:
         module = index.mod(rel)
         for call in [n for n in ast.walk(module.tree) if isinstance(n, ast.Call)]:
@@ -427,8 +436,29 @@ def arg_binding(ck, rels, rule='ARG-binding'):
                 ck.ob(rule, module.loc(call), kw.arg == aname, '{}(): the value named `{}` is passed as keyword `{}`'.format(qual, aname, kw.arg) +
                       ('' if kw.arg == aname else ' -- the callee has a parameter `{}` of its own: crossed keywords'.format(aname)),
                       key='{}|{}|{}|kw-{}'.format(rule, cname, qual, aname))
+            # a defaulted parameter left to its default although the caller holds a value of exactly that name
+            given = set(params[:len(call.args)]) | {k.arg for k in call.keywords if k.arg}
+            if any(k.arg is None for k in call.keywords):
+                given = allp
+            caller = module.enclosing_function(call)
+            if caller is not None:
+                cname = module.qualname_of(caller)
+                held = set(param_names(caller)) | {n.id for n in walk_local(caller) if isinstance(n, ast.Name) and isinstance(n.ctx, ast.Store) and n.lineno < call.lineno}
+                defaults = set()
+                pos_ = fn.args.posonlyargs + fn.args.args
+                defaults |= {a.arg for a in pos_[len(pos_) - len(fn.args.defaults):]}
+                defaults |= {a.arg for a, d in zip(fn.args.kwonlyargs, fn.args.kw_defaults) if d is not None}
+                for pname in sorted((defaults & held) - given):
+                    if caller is fn or qual.split('.')[-1] in ARG_DROP_CALLEE_EXEMPT:
+                        continue    # recursion handing on a subset of its own parameters is judged by the rule of that function
+                    dropped += 1
+                    reason = ARG_DROP_TRIAGE.get((rel, cname, qual, pname))
+                    ck.ob(rule, module.loc(call), reason is not None, '{}(): parameter `{}` is left to its default although {} holds a value named `{}`{}'.format(
+                        qual, pname, cname, pname, ' -- triaged: ' + reason if reason else ': the requested value does not reach the callee'),
+                        key='{}|{}|{}|dropped-{}'.format(rule, cname, qual, pname))
     ck.extra.setdefault('arg_binding', {})['calls_resolved'] = resolved
     ck.extra['arg_binding']['same_name_arguments'] = samename
+    ck.extra['arg_binding']['defaulted_although_held'] = dropped
     return resolved, samename
 
 
@@ -516,3 +546,58 @@ def edge_orientation(ck, rels, rule='EDGE-orientation'):
                             key='{}|{}|{}'.format(rule, qual, u(test)[:50]))
     ck.extra['edge_orientation_sites'] = n
     return n
+
+
+# ----------------------------------------------------------------------------------------------------------------------
+def sorted_nodes_rule(ck, rule):
+    """Molecule.sorted_nodes is the atom order of every writer (ITP, PDB, GRO): every node, by atom id, ties in node order."""
+    mol = ck.index.mod('vermouth/molecule.py')
+    sn = mol.func('Molecule.sorted_nodes')
+    ck.analysed(mol, sn)
+    body = [s_ for s_ in sn.body if not (isinstance(s_, ast.Expr) and isinstance(s_.value, ast.Constant))]
+    ok = len(body) == 1 and isinstance(body[0], ast.Expr) and isinstance(body[0].value, ast.YieldFrom) and isinstance(body[0].value.value, ast.Call) \
+        and call_name(body[0].value.value) == 'sorted' and u(body[0].value.value.args[0]) == 'self.nodes'
+    if ok:
+        lam = kwarg(body[0].value.value, 'key')
+        ok = isinstance(lam, ast.Lambda) and u(lam.body) == "self.nodes[{}].get('atomid', np.inf)".format(lam.args.args[0].arg) and kwarg(body[0].value.value, 'reverse') is None
+    ck.ob(rule, mol.loc(sn), ok, 'sorted_nodes yields every node, ordered by atom id alone (a missing id sorts last; the id 0 is an id like any other; atoms with equal or no ids '
+          'keep the molecule\'s own node order -- the order the coordinate writers and the ITP writer share)', key=rule + '|sorted_nodes')
+
+
+# ----------------------------------------------------------------------------------------------------------------------
+def pdb_atom_record_rules(ck, rule):
+    """PDBParser._atom: whether a record is kept, and what element it gets, depends on that record alone."""
+    pdb = ck.index.mod('vermouth/pdb/pdb.py')
+    fn = ck.need(method(pdb.cls('PDBParser'), '_atom'), 'PDBParser._atom vanished')
+    ck.analysed(pdb, fn)
+    allowed_self = {'self.exclude', 'self.ignh', 'self._skipahead'}
+    offenders = []
+    nret = 0
+    for st, cond, env in stmts_with_env(fn, lambda s_: isinstance(s_, ast.Return)):
+        nret += 1
+        for a in flow.atoms_of(cond):
+            for part in a[1:]:
+                try:
+                    expr = ast.parse(part, mode='eval').body
+                except SyntaxError:
+                    continue
+                for n in ast.walk(expr):
+                    if isinstance(n, ast.Attribute) and isinstance(n.value, ast.Name) and n.value.id == 'self' and u(n) not in allowed_self:
+                        offenders.append(u(n))
+    ck.ob(rule, pdb.loc(fn), nret >= 3 and not offenders,
+          'an ATOM/HETATM record is skipped on grounds of that record alone (its altLoc, residue name, element) and of the reader\'s settings; no memory of earlier records '
+          'takes part ({} skip path(s){})'.format(nret, '; parser state read: ' + ', '.join(sorted(set(offenders))) if offenders else ''), key=rule + '|record-local-filter')
+    skip = ('atom', ('truth', 'self._skipahead'))
+    ok = False
+    for st, c, e in stmts_with_env(fn, lambda s_: isinstance(s_, ast.Return)):
+        ats = [a for a in flow.atoms_of(c) if "['altloc']" in atom_text(a)]
+        if len(ats) == 1 and ats[0][0] == 'In' and flow.equivalent(c, ('not', ('atom', ats[0])), flow.NOT(skip))[0]:
+            ok = try_fold(ast.parse(ats[0][2], mode='eval').body, default=None) in (['', 'A'], ('', 'A'), {'', 'A'})
+    ck.ob(rule, pdb.loc(fn), ok, 'alternate locations: exactly the records labelled "" or "A" are kept', key=rule + '|altloc')
+    stores = [(st, c) for st, c, e in stmts_with_env(fn, lambda s_: isinstance(s_, ast.Assign) and u(s_.targets[0]) == "properties['element']")]
+    ok = len(stores) == 1 and flow.equivalent(stores[0][1], ('not', ('atom', ('truth', "properties['element']"))), flow.NOT(skip))[0]
+    if ok:
+        val = flow.subst(stores[0][0].value, {k: v for st, c, e in stmts_with_env(fn, lambda s_: s_ is stores[0][0]) for k, v in e.items()})
+        ok = u(val) == "first_alpha(properties['atomname'])"
+    ck.ob(rule, pdb.loc(fn), ok, 'a record without an element column gets the first letter of its atom name as element (independent of how the name is aligned or numbered: '
+          '"HE21" and "1HE2" are both H); a given element is never overridden', key=rule + '|element')
